@@ -241,7 +241,9 @@ func registerReflectStruct(p *Program) {
 			panic(targetPanic{v: "reflect: Field index out of range", what: "reflect"})
 		}
 		f := st.Field(i)
-		ro := rv.RO || !f.Exported()
+		// reading through an unexported *embedded* field does not taint promoted exported fields
+		// (reflect's flagEmbedRO is not sticky); any other unexported field does (flagStickyRO)
+		ro := rv.RO || (!f.Exported() && !f.Embedded())
 		if rv.Addr != nil {
 			s := (*rv.Addr).(Struct)
 			return &RV{T: f.Type(), Addr: &s[i], RO: ro}
